@@ -15,6 +15,7 @@ pub mod c15;
 pub mod c16;
 pub mod c17;
 pub mod c20;
+pub mod lat;
 
 pub fn registry() -> Vec<(&'static str, &'static [(&'static str, fn(&mut inp::VecInp))])> {
     vec![
@@ -28,5 +29,6 @@ pub fn registry() -> Vec<(&'static str, &'static [(&'static str, fn(&mut inp::Ve
         ("c16", c16::HARNESSES),
         ("c17", c17::HARNESSES),
         ("c20", c20::HARNESSES),
+        ("lat", lat::HARNESSES),
     ]
 }
